@@ -58,6 +58,7 @@ def check(run):
     _slice_from_grid(run, P)
     _accessors(run, P)
     _lat_scan(run, P)
+    _edge_node_z(run, P)
 
 
 # ---------------------------------------------------------------------------------------------------------------- slice.py
@@ -579,3 +580,27 @@ def _lat_scan(run, P):
         run.violation("F-NJIT/prange", c, where(f, bad_w[0]), f"parallel loop writes {norm(bad_w[0])[:60]} at a position other than its own index: iterations race")
     else:
         run.holds("F-NJIT/prange", c, where(f, loop), "each iteration writes only its own element")
+
+
+def _edge_node_z(run, P):
+    """the z values the scan compares with sin(lat) are the stored node_z gathered through edge_node_connectivity - no arithmetic in between:
+    any floating-point operation (e.g. a re-normalisation) moves values by an ulp and turns a node lying exactly ON the parallel into one beside it"""
+    f = P.try_func(f"{GRID}:Grid.edge_node_z")
+    c = "Grid.edge_node_z:pure-gather"
+    if f is None:
+        run.incomplete("IDX/edge-node-z", c, "-", "property not found")
+        return
+    defs = LocalDefs(f.node)
+    st = next((s2 for s2 in iter_stmts(f.node.body) if isinstance(s2, ast.Assign) and isinstance(s2.targets[0], ast.Name) and isinstance(s2.value, ast.Subscript)), None)
+    if st is None:
+        run.incomplete("IDX/edge-node-z", c, where(f), "gather not found")
+        return
+    base = S.strip_copy(st.value.value)
+    idx = S.strip_copy(st.value.slice)
+    ok = isinstance(base, ast.Attribute) and base.attr == "node_z" and isinstance(idx, ast.Attribute) and idx.attr == "edge_node_connectivity"
+    if ok:
+        run.holds("IDX/edge-node-z", c, where(f, st), "edge_node_z = node_z[edge_node_connectivity]")
+    else:
+        nodes, _ = defs.closure(st.value)
+        arith = [norm(n.func) for e in nodes for n in ast.walk(e) if isinstance(n, ast.Call) and (dotted(n.func) or [""])[-1] not in ("DataArray",)]
+        run.violation("IDX/edge-node-z", c, where(f, st), f"edge_node_z is {norm(st.value)[:70]} (through {arith[:3]}), not the stored node_z gathered by edge_node_connectivity: values that lie exactly on a queried parallel no longer compare equal to sin(lat)")
